@@ -150,6 +150,7 @@ def run(prog, tier, extra=None):
     R2 = res.rule("C03.ledger-owner", "only the wind/unwind primitives (and two named exceptions) mutate a UtxoSet", floor=6)
     R4 = res.rule("C03.full-before-apply", "wind/unwind upgrade the block to a full block in the same step before applying its transactions", floor=2)
     R5 = res.rule("C03.order", "wind proceeds oldest-first, unwind newest-first (index direction over the tip-first chain slices)", floor=2)
+    R6 = res.rule("C03.marker-by-hash", "a ring slot's longest-chain marker is set to the position of the block's hash (or cleared); ring positions are not computed with wrapping arithmetic", floor=2)
     R3 = res.rule("C03.index-owner", "only the table's bodies write the longest-chain index / in_longest_chain", floor=8)
 
     wind = prog.body(BC + "wind_chain::{closure#0}")
@@ -319,6 +320,64 @@ def run(prog, tier, extra=None):
             res.add(Finding(R3, "C03.index-owner|%sadd_block::{closure#0}|BlockRing::on_chain_reorganization|unpaired" % BC,
                             "add_block rewrites the longest-chain index (BlockRing::on_chain_reorganization) without unwinding the UTXO set and the wallet: "
                             "the index stops describing the chain the ledger was built from", ab.loc(bb)))
+    # R6: the by-height index answers "which block of this height is on the longest chain" through RingItem.lc_pos. Outside the
+    # deletion path (C04.index-delete-neutral) a store of Some(..) into it must be the position at which the block's *hash* was found
+    # in the slot (a search of block_hashes), never a position guessed from the order of arrival; None clears it. And positions in the
+    # ring are computed with checked/branching arithmetic: `x.wrapping_sub(1) % n` is only right when n divides 2^64.
+    from ..expr import Chaser as _Ch6, has_field as _hf6, strip as _st6, walk as _wk6, show as _sh6
+    from ..fields import place_has_field as _phf6
+    DELETE_PATH = {CORE + "consensus::ringitem::RingItem::delete_block"}
+    # SPV bootstrap: ghost blocks are indexed without transactions or a ledger (see INDEX_WRITERS); add_ghost_block marks slot position 0
+    # right after pushing the block, which names that block only while the slot holds nothing else - outside what this rule decides
+    SPV_PATH = {BC + "add_ghost_block"}
+    for p, b in cg.bodies.items():
+        if "::tests::" in p or "/test/" in b.file or b.is_promoted or p in DELETE_PATH:
+            continue
+        if p in SPV_PATH:
+            res.not_decided.append("C03.marker-by-hash: %s (SPV ghost-chain bootstrap) sets the slot marker positionally; not decided" % p.replace(CORE, ""))
+            continue
+        ch6 = None
+        for bb, blk in enumerate(b.blocks):
+            for st in blk["s"]:
+                if st[0] != "=" or _phf6(st[1], "ringitem::RingItem", "lc_pos") is None:
+                    continue
+                ch6 = ch6 or _Ch6(b)
+                vals = []
+
+                def expand(block, e, seen):
+                    x = _st6(e)
+                    if x[0] == "local" and x[1] not in seen and x[1] > b.argc and b.defs(x[1]):
+                        seen.add(x[1])
+                        for d in b.defs(x[1]):
+                            if d[0] == "stmt":
+                                expand(d[1], ch6.rvalue(d[3], 0), seen)
+                            else:
+                                vals.append((d[1], ch6.call(d[2], d[1], 0)))
+                    else:
+                        vals.append((block, e))
+                expand(bb, ch6.rvalue(st[2], 0), set())
+                for vb, e in vals:
+                    res.instance(R6)
+                    x = _st6(e)
+                    is_none = (x[0] == "agg" and x[1][0] == "adt" and x[1][2] == "None") or (x[0] == "const" and "None" in (x[2] or ""))
+                    by_hash = _hf6(e, "ringitem::RingItem", "block_hashes") and any(
+                        y[0] in ("call", "via") and y[1].rsplit("::", 1)[-1] in ("position", "rposition", "find", "find_map", "binary_search") for y in _wk6(e))
+                    if is_none or by_hash:
+                        res.sample({"rule": R6, "site": b.loc(vb), "value": "None" if is_none else "position of the hash in block_hashes"})
+                    else:
+                        res.add(Finding(R6, "C03.marker-by-hash|%s" % p, "%s sets a ring slot's longest-chain marker to `%s`, which is not the position at which the block's hash "
+                                        "was found: with several blocks at one height the index can name a block that is not on the chain of the tip"
+                                        % (p.replace(CORE, ""), _sh6(e)[:60]), b.loc(vb)))
+        if p.startswith(CORE + "consensus::blockring::") or p.startswith(CORE + "consensus::ringitem::"):
+            ch6 = ch6 or _Ch6(b)
+            for bb, blk in enumerate(b.blocks):
+                for st in blk["s"]:
+                    if st[0] == "=" and st[2][0] == "bin" and st[2][1].startswith(("Rem", "Div")):
+                        lhs = ch6.origin(st[2][2])
+                        if any(y[0] in ("call", "via") and y[1].rsplit("::", 1)[-1] in ("wrapping_sub", "wrapping_add", "wrapping_mul", "wrapping_neg") for y in _wk6(lhs)):
+                            res.instance(R6)
+                            res.add(Finding(R6, "C03.marker-by-hash|%s|wrapping" % p, "%s reduces a wrapping_* result modulo the ring size (`%s`): at position 0 this is "
+                                            "not the last slot unless the ring size is a power of two" % (p.replace(CORE, ""), _sh6(lhs)[:60]), b.loc(bb)))
     res.explanation = (
         "Decides the lockstep and ownership structure without which the four views (UTXO set, by-height index, per-block flag, wallet) cannot describe the same chain: "
         "exactly-once, same-direction updates of all four in wind_chain (after an accepting validate) and unwind_chain, who may mutate a UtxoSet, who may call the "
